@@ -15,7 +15,7 @@ def shrinkHistory : List Cmd :=
     .childAdd 7 [1, 2], .childAdd 8 [3],
     .childCertify 7 0 6 none 60, .childCertify 8 0 5 none 60 ]
 
-/-- suspend → unsuspend → the parent's certificate shrinks. -/
+/-- suspend → unsuspend → the parent's certificate shrinks (the F-C02-1 history). -/
 def staleHistory : List Cmd :=
   [ .repoUpdate [], .addParent 9,
     .updateEntitlements 9 [⟨0, [1, 2, 3], 100, []⟩] 0 [4],
@@ -39,9 +39,21 @@ def orphanHistory : List Cmd :=
     .updateRcvdCert 0 4 { res := [3], na := 100 } 63 [],
     .updateRcvdCert 0 4 { res := [2], na := 100 } 64 [] ]
 
-/-- F-C04-1: with a class-name mapping to a class the parent does not have, a revocation
-request of the child makes `process` return `ChildKeyRevoked` for the unknown class, and
-`apply` unwraps `None` (certauth.rs:391-393).  Reachable state, concrete witness. -/
+/-- `process_child_revoke_key` of the pinned tree (before 43d7eca0): the class test is made on
+the *child's* name and only then is the name translated – the counter-model of F-C03-1 and
+F-C04-1. -/
+def Ca.pinnedRevoke (s : Ca) (ch : Handle) (childRcn : Rcn) (ki : KeyId) : Except Err (List Ev) :=
+  if !(AMap.get s.classes childRcn).isSome then .ok []
+  else
+    match AMap.get s.children ch with
+    | none => .error .unknownChild
+    | some c =>
+      let myRcn := c.nameInParent childRcn
+      if !c.isIssued ki then .error .noIssuedCert
+      else .ok [.childKeyRevoked ch myRcn ki, .childCerts myRcn { removed := [ki] }]
+
+/-- A child whose certificate is under class 0 and a class-name mapping "class 0 of the child is
+class 5 here", class 5 not being a class of this CA (allowed with a warning). -/
 def witnessMapped : List Cmd :=
   [ .repoUpdate [], .addParent 9,
     .updateEntitlements 9 [⟨0, [1, 2], 100, []⟩] 0 [4],
@@ -50,8 +62,17 @@ def witnessMapped : List Cmd :=
     .childCertify 7 0 6 none 60,
     .childMapping 7 5 0 ]
 
-/-- F-C02-1 seen from the roll: suspend → unsuspend → roll; at activation the active child's
-certificate is dropped (it is re-issued as *suspended*). -/
+/-- A child whose class 0 is called 5 *by the child* (mapping name_in_parent 0 ↦ name_for_child 5). -/
+def witnessRenamed : List Cmd :=
+  [ .repoUpdate [], .addParent 9,
+    .updateEntitlements 9 [⟨0, [1, 2], 100, []⟩] 0 [4],
+    .updateRcvdCert 0 4 { res := [1, 2], na := 100 } 50 [],
+    .childAdd 7 [1, 2],
+    .childMapping 7 0 5,
+    .childCertify 7 5 6 none 60 ]
+
+/-- suspend → unsuspend → roll (F-C02-1 seen from the roll on the pinned tree: at activation the
+active child's certificate was dropped, re-issued as *suspended*). -/
 def staleRoll : List Cmd :=
   [ .repoUpdate [], .addParent 9,
     .updateEntitlements 9 [⟨0, [1, 2], 100, []⟩] 0 [4],
@@ -62,5 +83,14 @@ def staleRoll : List Cmd :=
     .childSuspend 7, .childUnsuspend 7 10 61,
     .keyrollInit [(0, 5)],
     .updateRcvdCert 0 5 { res := [1, 2], na := 100 } 62 [] ]
+
+/-- Class 0 certified, class 1 entitled but still pending; the child holds a certificate under
+class 0. -/
+def pendingClassHistory : List Cmd :=
+  [ .repoUpdate [], .addParent 9,
+    .updateEntitlements 9 [⟨0, [1, 2], 100, []⟩, ⟨1, [3], 100, []⟩] 0 [4, 5],
+    .updateRcvdCert 0 4 { res := [1, 2], na := 100 } 50 [],
+    .childAdd 7 [1, 2],
+    .childCertify 7 0 6 none 60 ]
 
 end KM.CaK
